@@ -493,9 +493,38 @@ def _places19(rv):
     return _rv_places(rv)
 
 
+def r12(ctx, facts):
+    """a PARTIAL fetch (client routes, peer list) is merged INTO what is pending; only full metadata subsumes - and may replace -
+    a pending partial update. A partial merge that overwrites `metadata_changes` while something is pending throws away the
+    other aspect's pending result (seed C19-j: a peer list erasing the pending client-routes update)."""
+    r = ctx.rule("R12", "a partial merge replaces `metadata_changes` as a whole only when nothing is pending", floor=2)
+    n = 0
+    for nm in ("merge_client_routes_update", "merge_topology_update"):
+        b = facts.one(r"^scylla::cluster::metadata::update::MetadataUpdate::%s$" % nm)
+        dj = dj_of(b, facts)
+        df = df_of(b, facts)
+        stores = []
+        for bb in sorted(b.live_blocks):
+            for st in b.stmts(bb):
+                if st[0] == "A" and st[1][1]:
+                    pth = df.canon.path(st[1])
+                    if pth and pth[1] and pth[1][-1] == "metadata_changes":
+                        stores.append((bb, st, pth))
+        for k, (bb, st, pth) in enumerate(stores):
+            n += 1
+            key = ("disc", pth)
+            pending = [s_ for s_ in dj.states_at(bb) if not in_set(s_.get(key), {0})]
+            r.instance("%s:whole-store-only-when-empty#%d" % (nm, k), not pending,
+                       "MetadataUpdate::%s overwrites the pending `metadata_changes` in a state where it is not known to be `None`: "
+                       "whatever another partial fetch (or a full one) had left there is dropped and never observed by the consumer" % nm,
+                       b.stmt_span(st))
+    if n == 0:
+        raise AnchorLost("no store to `metadata_changes` in the partial merge functions")
+
+
 def check(ctx):
     facts = inline_view(ctx.facts("default"))
-    for fn in (r1_r4, r2, r3, r5, r6, r7, r8, r9, r10, r11):
+    for fn in (r1_r4, r2, r3, r5, r6, r7, r8, r9, r10, r11, r12):
         try:
             fn(ctx, facts)
         except AnchorLost as ex:
